@@ -1334,7 +1334,7 @@ def c05(run):
                 'loops/ifs, block locals, pronoun reads, calls nested in arguments, error calls (wrong arity, non-function, unknown name, '
                 'leaked local); metamorphic oracles on the implementation: an unused extra parameter+argument changes nothing, wrapping '
                 'statements that bind no new name in `if true` changes nothing; EVERY function body of up to 2 (quick) / 3 (thorough) statements '
-                'over a 32-shape vocabulary x 9 observations (and a 15-shape pronoun vocabulary under a parameter that shadows a global), also with every name proper (a confusable family) / common, tied to the model; non-trivial = at least 2 calls executed; distinct by program text')
+                'over a 34-shape vocabulary x 9 observations (and a 15-shape pronoun vocabulary under a parameter that shadows a global), also with every name proper (a confusable family) / common, tied to the model; non-trivial = at least 2 calls executed; distinct by program text')
     cases = []
     for i in range(n):
         fg = Funcs(rng)
@@ -1426,7 +1426,7 @@ SCOPE_BODY = ['put 10 into gg', 'put 11 into ll', 'put 12 into pp', 'say gg', 's
               'put helper taking 7 into hh', 'say helper taking pp', 'if pp is 5\nput 13 into bb\nsay bb\n', 'if pp is 5\nput 14 into gg\n',
               'say bb', 'if pp is greater than 0\nput pp minus 5 into qq\ngive back ff taking qq\n', 'while pp is greater than 0\nknock pp down\nput 15 into ww\nif pp is 2\ngive back ww\n\n',
               'say ww', 'give back gg', 'rock gg with pp', 'put pp into ll at 0', 'listen to ll', 'put ff into hh',
-              'if pp is 4\nsay 0\n', 'put 6 into it', 'give back it',
+              'if pp is 4\nsay 0\n', 'put 6 into it', 'give back it', 'gg takes zz\ngive back zz\n', 'build gg up',
               'while pp is greater than 3\nknock pp down\nrock ww with 1\nsay ww\n\n', 'until pp is less than 4\nknock pp down\nll takes zz\ngive back zz\n\nsay ll taking pp\n\n',
               # a name resolved, then SHADOWED under another letter case (variable / nested function), then resolved again
               'put 9 into HELPER', 'HeLPer takes zz\ngive back 77\n',
